@@ -1,1 +1,89 @@
-Require Import RIO.Base.
+(* C02 — incremental rule updates are equivalent to rebuilding; clones are isolated.
+   Statements only; proofs in RIO.RouterProofs. *)
+Require Import RIO.Base RIO.Route RIO.Tree RIO.TreeInst RIO.Matchers RIO.MatcherSpec RIO.RouterSpec RIO.RouterHist RIO.RouterProofs.
+Close Scope N_scope.
+
+(* After ANY admissible history of insert / remove / batch_remove / apply_change_set / cache / clone-and-mutate
+   (admissible: inserted routes acceptable, live ids stay unique) the router answers every request as the
+   reference does on the flat list of live routes ... *)
+Theorem C02_refines : forall lower eng valid ic_host ic_path always,
+  engine_dotstar eng -> engine_prefix_law eng ->
+  forall (ops : list rop) (q : request), hist_ok lower [] ops ->
+  Permutation (router_match lower eng valid ic_host ic_path always q
+                 (rrun lower eng valid ic_host ic_path always ops (router_new lower eng valid ic_host ic_path always)))
+              (spec_match lower (eng false) (hmatch eng ic_host) (pmatch eng ic_path) always (live ops) q).
+Proof. exact hist_match. Qed.
+
+(* ... hence exactly as a router rebuilt from scratch from the live rule set *)
+Theorem C02_rebuild : forall lower eng valid ic_host ic_path always,
+  engine_dotstar eng -> engine_prefix_law eng ->
+  forall (ops : list rop) (q : request), hist_ok lower [] ops -> Forall (ok_route lower) (live ops) ->
+  Permutation (router_match lower eng valid ic_host ic_path always q
+                 (rrun lower eng valid ic_host ic_path always ops (router_new lower eng valid ic_host ic_path always)))
+              (router_match lower eng valid ic_host ic_path always q (rbuild lower eng valid ic_host ic_path always (live ops))).
+Proof. exact hist_match_rebuild. Qed.
+
+(* its size is the number of live rules *)
+Theorem C02_len : forall lower eng valid ic_host ic_path always,
+  engine_dotstar eng -> engine_prefix_law eng ->
+  forall ops, hist_ok lower [] ops ->
+  router_len (rrun lower eng valid ic_host ic_path always ops (router_new lower eng valid ic_host ic_path always)) = length (live ops).
+Proof. exact hist_len. Qed.
+
+(* a removal returns the removed rule, None exactly when the id is not live *)
+Theorem C02_remove_returns : forall lower eng valid ic_host ic_path always,
+  engine_dotstar eng -> engine_prefix_law eng ->
+  forall ops id, hist_ok lower [] ops ->
+  snd (router_remove lower eng valid ic_host ic_path always id
+         (rrun lower eng valid ic_host ic_path always ops (router_new lower eng valid ic_host ic_path always)))
+  = find_id id (live ops).
+Proof. exact hist_remove. Qed.
+
+(* a removed rule never matches again: it is not in the live list any more *)
+Theorem C02_removed_not_live : forall (L : list route) id r, In r (live_step L (RRem id)) -> rt_id r <> id.
+Proof.
+  intros L id r H. cbn in H. apply filter_In in H. destruct H as [_ H]. unfold mem_str in H. cbn in H.
+  rewrite orb_false_r in H. apply negb_true_iff in H. intros E. subst. rewrite str_eqb_refl in H. discriminate.
+Qed.
+
+(* clone isolation in the functional model: deriving and mutating a clone is the identity on the original.
+   (Aliasing cannot go wrong in Gallina; this clause is decided by the correspondence run, which clones the real
+   Router, mutates the clone and keeps probing the original.) *)
+Theorem C02_clone_mut_identity : forall lower eng valid ic_host ic_path always R ops,
+  rstep lower eng valid ic_host ic_path always R (RCloneMut ops) = R.
+Proof. reflexivity. Qed.
+
+(* Non-vacuity: an admissible history with a static and a dynamic rule, a removal, a change set that updates
+   a rule into another bucket and re-adds the removed one, and a cache step *)
+Definition ex_route (id : str) (rank : Z) (host : option sod) (path : sod) (methods : option (list str)) : route :=
+  {| rt_tag := 0; rt_id := id; rt_priority := (- rank)%Z; rt_scheme := None; rt_host := host; rt_methods := methods; rt_exclude_methods := None;
+     rt_path := path; rt_headers := []; rt_ips := None; rt_datetime := None; rt_time := None; rt_weekdays := None |}.
+Definition ex_re : list Prefix.tok := [Prefix.TLit 47%N; Prefix.TLit 120%N; Prefix.TLit 47%N; Prefix.TGrp [91;48;45;57;93;43]%N].   (* /x/([0-9]+) *)
+Example C02_example_hist_ok : forall lower,
+  let r1 := ex_route [114;49]%N 1 None (SStatic [47;120]%N) None in
+  let r2 := ex_route [114;50]%N 2 (Some (SStatic [97;46;99;111;109]%N)) (SDynamic (Prefix.render ex_re)) (Some [[71;69;84]%N]) in
+  let r2' := ex_route [114;50]%N 0 None (SStatic [47;121]%N) None in
+  hist_ok lower [] [RIns r1; RIns r2; RRem [114;49]%N; RChange [r1] [r2'] []; RCache None; RCloneMut [RRem [114;50]%N]]
+  /\ map rt_id (live [RIns r1; RIns r2; RRem [114;49]%N; RChange [r1] [r2'] []; RCache None]) = [[114;50]%N; [114;49]%N].
+Proof.
+  intros lower r1 r2 r2'.
+  assert (H1 : ok_route lower r1) by (apply (ok_route_intro lower (fun _ _ => true) true); cbn; auto; constructor).
+  assert (H2 : ok_route lower r2).
+  { apply (ok_route_intro lower (fun _ _ => true) true); cbn; auto; [|constructor|repeat constructor; intros []].
+    split; [exists ex_re; split; reflexivity|discriminate]. }
+  assert (H2' : ok_route lower r2') by (apply (ok_route_intro lower (fun _ _ => true) true); cbn; auto; constructor).
+  split; [|reflexivity]. cbn [hist_ok op_ok live_step].
+  split; [split; [exact H1|intros []]|].
+  split; [split; [exact H2|vm_compute; intros [H|[]]; discriminate]|].
+  split; [exact I|].
+  split; [|auto].
+  split; [repeat constructor; assumption|].
+  split; [vm_compute; constructor; [intros [H|[]]; discriminate|constructor; [intros []|constructor]]|].
+  intros r [<-|[]]. vm_compute. intros [].
+Qed.
+
+Print Assumptions C02_refines.
+Print Assumptions C02_rebuild.
+Print Assumptions C02_len.
+Print Assumptions C02_remove_returns.
+Print Assumptions C02_removed_not_live.
